@@ -28,7 +28,7 @@ NOT_MODELLED = {
     "Session.AddURI": "dispatcher: addURL -> AddTorrent | addMagnet (both modelled)",
     "Torrent.NotifyComplete": "returns a channel", "Torrent.NotifyMetadata": "returns a channel", "Torrent.NotifyClose": "returns a channel",
 }
-PRIMS = {"RL", "RU", "WL", "WU", "DBB", "DBE", "RES", "SEND", "RECV", "CHSEND", "CHRECV", "CLOSE", "WAIT", "EXT", "GO", "SELECT"}
+PRIMS = {"RL", "RU", "WL", "WU", "DBB", "DBE", "RES", "SEND", "RECV", "CHSEND", "CHRECV", "CLOSE", "WAIT", "JOIN", "EXT", "GO", "SELECT"}
 
 
 def select_blocks(r):
@@ -163,7 +163,7 @@ def conformance(ctx, xjson, progs, meta):
                 if held is None or held[1] != r or held[0][0] != k[0]:
                     problems.append("loop handler %s: unbalanced %s %s (line %s)" % (fn, k, r, e.get("line")))
                 held = None
-            elif k in ("RES", "DBB", "CALL", "SEND", "RECV", "CHRECV", "WAIT") and held is not None and not (k == "CALL" and not code.flatten(r.lstrip("?"))):
+            elif k in ("RES", "DBB", "CALL", "SEND", "RECV", "CHRECV", "WAIT", "JOIN") and held is not None and not (k == "CALL" and not code.flatten(r.lstrip("?"))):
                 problems.append("loop handler %s: %s %s while holding %s (line %s)" % (fn, k, r, held, e.get("line")))
             elif k == "CHSEND" and r not in ok_send:
                 problems.append("loop handler %s: blocking send on %s (line %s) is not part of the loop envelope" % (fn, r, e.get("line")))
@@ -315,6 +315,14 @@ def parse_dump(txt):
                 break
             if f.startswith(RAIN) and "/internal/verif/" not in f and not f.startswith(RAIN + "internal/resumer"):
                 break     # running / waiting inside rain code below any primitive we know: not a lock wait
+        if g["prim"] is None:
+            # a plain sync.Mutex (Session.mPeerRequests); RWMutex.Lock also passes through Mutex.Lock but was recognised above
+            for f in frames:
+                if f.startswith("sync.(*Mutex).Lock"):
+                    g["prim"] = "ML"
+                    break
+                if f.startswith(RAIN) and "/internal/verif/" not in f:
+                    break
         for f in frames:
             if f.startswith(RAIN + "torrent."):
                 g["at"] = re.sub(r"(\.func\d+|\.\d+|-fm)+$", "", f[len(RAIN):])   # closures are inlined or not, build dependent
@@ -360,6 +368,29 @@ def confirm_cycle(gs, parties):
         used.add(g["id"])
         obs.append((PRIM_ORDER.get(g["prim"], 9), "%s:%s" % (g["prim"], g["at"])))
     return [x for _, x in sorted(obs)]
+
+
+HELPER_PKGS = ("internal/verifier.", "internal/allocator.", "internal/announcer.")
+
+
+def loop_join(gs):
+    """The event loop of a torrent is blocked JOINING one of its helper goroutines (X.Close() = close(closeC); <-doneC, called
+    from stop()), and the helper cannot end. Returns the observed parties: the loop's site (frame of package torrent that
+    called Close) and what the helper goroutines are blocked on; None when no loop is blocked in a join."""
+    loops, helpers = set(), set()
+    for g in gs:
+        fr = [f[len(RAIN):] for f in g["frames"] if f.startswith(RAIN) and "/internal/verif/" not in f]
+        if not fr:
+            continue
+        st = g["state"].split(",")[0].replace(" ", "_")
+        if any(f.startswith("torrent.(*torrent).run") for f in fr) and fr[0].startswith(HELPER_PKGS) and fr[0].endswith(".Close") and st == "chan_receive":
+            loops.add("loop:%s>%s@%s" % (g["at"], strip_closure(fr[0]).replace("internal/", ""), st))
+        elif any(f.startswith(HELPER_PKGS) and re.search(r"\)\.Run(\.|$)", f) for f in fr) and st in ("chan_send", "chan_receive", "sync.Mutex.Lock", "semacquire", "sync.RWMutex.Lock", "sync.RWMutex.RLock"):
+            top = strip_closure(fr[0]).replace("internal/", "")
+            helpers.add("%s@%s" % (top, st))
+    if not loops:
+        return None
+    return sorted(loops) + sorted(helpers)
 
 
 def blocked_summary(gs):
@@ -656,8 +687,13 @@ def events_of_child(ch, run_name, all_cycles, loop_funcs, expect_parties=None):
             if obs:
                 parties = ps
                 break
+        shape = shape_of(parties) if obs else "unexplained"
+        if not obs:
+            lj = loop_join(gs)
+            if lj:
+                obs, shape = lj, "loopjoin"
         e = {"op": "hang", "name": hang["op"], "confirmed": 1 if obs else 0,
-             "shape": shape_of(parties) if obs else "unexplained",
+             "shape": shape,
              "cycle": " ".join(obs) if obs else " ".join(blocked_summary(gs)[:12]),
              "after_ms": int(hang["after_ms"])}
         evs.append(e)
@@ -810,6 +846,13 @@ def run(ctx):
         for mix in ("compact", "move", "dht"):
             plan.append(("stress:" + mix, ["stress", "-mix", mix, "-skip", skip_all if predicted else "", "-dur", "45000", "-workers", "5",
                                            "-seed", str(sd * 10 + 200), "-limit", "40000"], 45 + 40 + 90))
+    # 4c. command histories issued DURING allocation / verification and with a busy DHT announcer (harness/c20/phases.go):
+    #     the loop joins its helper goroutines in stop(); judged by the watchdog (every call returns within -limit)
+    if quick:
+        plan.append(("phases", ["phases", "-dur", "22000", "-seed", str(sd + 400), "-limit", "15000"], 22 + 15 + 60))
+    else:
+        for k in range(3):
+            plan.append(("phases" if k < 2 else "phases:race", ["phases", "-dur", "60000", "-seed", str(sd * 10 + 400 + k), "-limit", "20000"], 60 + 20 + 90))
     par = 4 if quick else 5
     summary = []
     queue = [(label, _drop_empty_skip(args), wall, 0) for (label, args, wall) in plan]
@@ -819,7 +862,8 @@ def run(ctx):
         started = []
         for (label, args, wall, gen) in batch:
             k += 1
-            started.append((Child(ctx, drv_race, "s%d" % k, args, wall, True), label, args, wall, gen))
+            race = not (label == "phases")       # the lock-up histories need no race detector (and run 3-4x more histories without it)
+            started.append((Child(ctx, drv_race if race else drv, "s%d" % k, args, wall, race), label, args, wall, gen))
         for ch, label, args, wall, gen in started:
             ch.wait()
             evs = add(ch, label)
